@@ -199,14 +199,17 @@ int evaluate_module(void *data, const char *key, void *value) {
     }
 
     /* Check if module should be started */
-    int ret = 0;
     if (m_mod_is(mod, M_MOD_IDLE)) {
-        ret = optional_hook(mod, MOD_EVAL);
-        if (ret == 0) {
+        /*
+         * The eval hook may have started (or deregistered) the module itself:
+         * only start it if it is still idle.
+         */
+        if (optional_hook(mod, MOD_EVAL) == 0 && m_mod_is(mod, M_MOD_IDLE)) {
             start(mod, true);
         }
     }
-    return ret;
+    /* One module refusing to start must not stop the evaluation of the others */
+    return 0;
 }
 
 int start(m_mod_t *mod, bool starting) {
